@@ -48,6 +48,11 @@ CORPUS = [
     ("C16-N12", "", "#if defined(\n"),
     ("C16-N13", "", "while(int=)\n"),
     ("C16-N14", "", "@kernel\nvoid addVectors(union{float;}){@outer  for(int i=0;i<N;i+=BLOCK_SIZE){    @inner\n    for(int j=0; j < BLOCK_SIZE; ++j) {}\n  }\n}\n"),
+    ("C16-N15", "", "enum E { A, };\n"),
+    ("C16-N16", "", "int x @"),
+    ("C16-N17", "", "void f() { foo<<<>>>(1); }\n"),
+    ("C16-N18", "", "const (1 +) int x;\n"),
+    ("C16-N19", "", "void f() { while (int x :) {} }\n"),
     ("C16-N10", "", "@kernel void k(int *a) {\n  for (int i = 0; i < 1; ++i; @tile(99999999999, @outer, @inner)) {\n    a[i] = 1;\n  }\n}\n"),
     ("C16-N09", "", "#undef __FILE__\nconst char *f = __FILE__;\n"),
     ("C16-N08", "", "@kernel void k(const int N, float *a) {\n  for (int i = 0; i < N; ++i; @tile(16, @outer, @inner)) {\n    a[i] = OCCA_USING_GPU OCCA_USING_GPU\n  }\n}\n"),
